@@ -280,7 +280,7 @@ func largeEntries() {
 	var cmds []*exec.Cmd
 	var outs []string
 	for p := 0; p < 2; p++ {
-		sp := hist.RunSpec{Dir: dir, Proc: p + 1, URLs: []string{"http://crl.example/large.crl"}, BundleDir: bundleDir, Readers: 2, ReadsEach: r.N(10, 30), ReadGapUS: 60000,
+		sp := hist.RunSpec{Dir: dir, Proc: p + 1, URLs: []string{"http://crl.example/large.crl"}, BundleDir: bundleDir, Readers: 2, ReadsEach: r.N(10, 30), ReadGapUS: 60000, OutlastWriters: true,
 			Seed: r.Rand(fmt.Sprintf("large-%d", p)).U64(), SharedCache: p == 0, StartAt: start, Out: filepath.Join(scratch, fmt.Sprintf("large-%d.hist", p)), WriterIDs: [][]int64{ids[2*p : 2*p+2]}}
 		specPath := filepath.Join(scratch, fmt.Sprintf("large-%d.spec", p))
 		b, _ := json.Marshal(sp)
